@@ -44,6 +44,14 @@ class Observer:
             return
         sn = koracles.Snapshot(run.wf)
         self.ctx.stats.count("oracle-states-checked")
+        if op == "define" and ans.startswith("ok"):
+            self.ctx.stats.count("oracle-definitions-checked")
+            for b in koracles.declaration_recorded(sn, line):
+                if b.startswith("C08"):
+                    self.ctx.finding(Finding(PID, "declaration-not-recorded:" + ("role" if "recorded as" in b else "owner"),
+                                             f"after '{kcorr.decode_line(line)[:100]}': {b}",
+                                             {"violation": b, "requests": [kcorr.decode_line(x) for x in run.lines][-15:],
+                                              "protocol_lines": list(run.lines)}))
         before = self.attached
         self.attached = {(n[0], n[1]) for n in sn.nodes.values() if not n[3]}
         came_back = self.attached - before if op == "define" else set()
